@@ -90,7 +90,6 @@ func init() {
 	log.RegisterPlugin[RecAppender]("Rec", log.PluginTypeAppender)
 }
 
-func keepAllHandles(name string) bool { return name == "root" }
 
 // warmHistory gives every case the same non-trivial past, whatever shard it runs in: the process
 // has already been configured, has logged located events with hooks set (through a sync and an async
@@ -102,7 +101,7 @@ func warmHistory() {
 		// the process has already rejected malformed expressions (more syntax errors than any per-call cap)
 		expr.Parse("@@@@ #### ^^^^ T{{{{")
 		expr.Parse("T{a=}")
-		log.VerifReset(keepBuiltinTags, keepAllHandles)
+		log.VerifReset()
 		log.Stdout = &bytes.Buffer{}
 		for _, fast := range []string{"true", "false"} { // ends with the defaults (enableCaller on, fast lookup off) set through the public properties
 			// (one appender with every layout attribute configured away from its default)
@@ -127,8 +126,9 @@ func warmHistory() {
 
 // confReset returns the library to its initial state (after a fixed warm-up history) and clears the recorders.
 func confReset() {
-	warmHistory()
-	log.VerifReset(keepBuiltinTags, keepAllHandles)
+	warmHistory() // starts from VerifReset (process-start state), ends destroyed with the defaults set through the public properties
+	safeCall(log.Destroy)
+	log.StringFromContext, log.FieldsFromContext = nil, nil
 	recMu.Lock()
 	defer recMu.Unlock()
 	for k := range recStore {
